@@ -1,6 +1,6 @@
 SPEC_PART = dict(
     props_file="C13_hll",
     legs=[dict(family="hll", focus="foreign", oracles=["foreign_ok"], profiles=["debug", "release"],
-               mask=[2, 3, 4, 5, 7, 8, 9], n_quick=150, n_thorough=2000)],
+               mask=[2, 3, 7, 8, 9], n_quick=150, n_thorough=2000)],
     trusted=[], assumptions=[], covers="hll: placeholder",
 )
